@@ -796,8 +796,13 @@ class ODLEncoder(PVLEncoder):
         if value.utcoffset() == datetime.timedelta():
             return t + "Z"
         else:
-            td_str = str(value.utcoffset())
-            (h, m, s) = td_str.split(":")
+            offset = value.utcoffset()
+            sign = "+"
+            if offset < datetime.timedelta():
+                # str() of a negative timedelta is '-1 day, 19:00:00'
+                sign = "-"
+                offset = -offset
+            (h, m, s) = str(offset).split(":")
             if s != "00":
                 raise ValueError(
                     "The datetime value had a timezone offset "
@@ -805,9 +810,9 @@ class ODLEncoder(PVLEncoder):
                     "not allowed in ODL."
                 )
             if m == "00":
-                return t + f"+{h:0>2}"
+                return t + f"{sign}{h:0>2}"
             else:
-                return t + f"+{h:0>2}:{m}"
+                return t + f"{sign}{h:0>2}:{m}"
 
         return t
 
